@@ -35,8 +35,9 @@ LEVEL_KEYS = {
     None: [0, 1, 2],
     "from": [1, 2, 3],
     "to": [1, 2, 3],
+    "": [5, 6, 7],               # a falsy level name that is not None
 }
-NAMES = ["a", "b", "c", "d", None, "from", "to"]
+NAMES = ["a", "b", "c", "d", None, "from", "to", ""]
 
 
 # ------------------------------------------------------------------ seeded uuid seam
@@ -260,8 +261,8 @@ def generate(prop, rng, tier):
     for _ in range(rng.randint(5, 14)):
         r = rng.random()
         if r < 0.68:
-            steps.append({"op": "bc", "obj": rng.randrange(64), "prm": rng.randrange(64), "reenter": rng.random() < 0.3,
-                          "subset": rng.random() < 0.25})
+            steps.append({"op": "bc", "obj": rng.randrange(64) if rng.random() < 0.6 else 0, "prm": rng.randrange(64),
+                          "reenter": rng.random() < 0.3, "held": rng.random() < 0.5})
         elif r < 0.72:
             steps.append({"op": "bc_drop", "obj": rng.randrange(64), "prm": rng.randrange(64), "which": rng.randrange(8)})
         elif r < 0.78:
@@ -435,6 +436,7 @@ def _run(trace, out, log):
         return True
 
     ms = MsHistory(trace["ms"]) if trace.get("ms") else None
+    held = {}
     for k, st in enumerate(trace["steps"]):
         out.steps += 1
         op = st["op"]
@@ -580,7 +582,16 @@ def _run(trace, out, log):
             continue
         sig = layout_signature(a, b) + ("|self" if obj is prm_o else "|sharedidx" if obj.index is prm_o.index else "")
         try:
-            prm_r, obj_r = Broadcaster(obj).broadcast(prm_o)
+            if st.get("held"):
+                # a Broadcaster / signal accessor object that its user keeps and re-uses for several parameters
+                bc = held.get(i)
+                if bc is None:
+                    bc = held[i] = Broadcaster(obj)
+                else:
+                    out.count("probe:held_broadcaster_reused")
+            else:
+                bc = Broadcaster(obj)
+            prm_r, obj_r = bc.broadcast(prm_o)
         except Exception as e:  # noqa
             out.violate("exception", "broadcast:" + layout_signature(a, b).split("|")[1],
                         {"step": k, "type": type(e).__name__, "msg": str(e)[:200], "layout": sig,
@@ -929,5 +940,6 @@ def describe(prop):
             "assumptions": ["unique keys per operand; for partially shared levels every shared key combination occurs in both operands (steps violating the quantifier are skipped and counted)",
                             "droplevel calls are exercised only for 'operands unmodified' (the returned pair then deliberately has different indices; an exception there is counted, not judged)",
                             "two unnamed levels (one per operand) are only exercised for otherwise disjoint names, where the level order of the result is fixed",
-                            "no exception is injected inside broadcast: C13 does not say operands survive a failed call"],
-            "required_probes": ["op:bc", "op:bc_scalar", "op:bc_array", "op:bc_drop", "op:derived_calculation", "op:ms_transform", "op:ms_mutate_in_place", "probe:reentered_operand", "seam:uuid4_calls"]}
+                            "no exception is injected inside broadcast: C13 does not say operands survive a failed call",
+                            "level names are strings (incl. the empty string) or None; integer level names are excluded because pandas itself cannot tell a level named 0 from level number 0"],
+            "required_probes": ["probe:held_broadcaster_reused", "op:bc", "op:bc_scalar", "op:bc_array", "op:bc_drop", "op:derived_calculation", "op:ms_transform", "op:ms_mutate_in_place", "probe:reentered_operand", "seam:uuid4_calls"]}
